@@ -1,4 +1,5 @@
 """C08 - framing renderables draw exact rectangles around intact content (DESIGN.md 5, C08)."""
+import io
 from rich import box
 from rich.align import Align
 from rich.bar import Bar
@@ -184,9 +185,14 @@ def c08_align(e):
 _RCHARS = ["-", "中", "ab", "─"]
 
 
+class _AsciiFile(io.StringIO):
+    encoding = "ascii"
+
+
 @symx("C08-rule", timeout=900, kind="C+S", functions=F8,
       bounds="Rule with characters from %r x title in {none, 't', wide, longer than the width} x align x available width 1..60 (>= 5 "
-             "with a title): the rule fills exactly the width it is given, on one line" % (_RCHARS,))
+             "with a title): x console encoding utf-8 / ascii (non-ASCII rule characters are then replaced): the rule is one line of exactly the width "
+             "it is given and, for single-width rule characters, has no blanks at either end" % (_RCHARS,))
 def c08_rule(e):
     ch = _RCHARS[int(e.mk("chars", 0, len(_RCHARS) - 1))]
     title = ["", "t", "标题 中", "a title that is longer than most widths"][int(e.mk("title", 0, 3))]
@@ -196,9 +202,21 @@ def c08_rule(e):
         return True
     if rw(ch) == 2 and w < 2:
         return True
+    ascii_only = bool(e.mkbool("ascii_only_console"))
     c = cat.console()
+    if ascii_only:
+        c.file = _AsciiFile()
     lines = cat.render_lines(c, Rule(title, characters=ch, align=how), w)
-    return len(lines) == 1 and rw(lines[0]) == w
+    if len(lines) != 1 or rw(lines[0]) != w:
+        return False
+    if ascii_only and not title and any(ord(x) > 127 for x in lines[0]):
+        return False
+    # it FILLS the width: with single-width rule characters the line does not end (or start) in blanks
+    drawn = "-" if (ascii_only and not ch.isascii()) else ch
+    if all(rw(x) == 1 for x in drawn) and (not title or (title.isascii() and rw(title) + 4 <= w)) \
+            and not (title and how == "right" and len(drawn) > 1):     # that combination crops the title (DESIGN.md 0.4, observed)
+        return lines[0].strip() == lines[0]
+    return True
 
 
 @symx("C08-bars", timeout=900, kind="C+S", functions=F8,
